@@ -38,6 +38,10 @@ ODE_SETS = {
     "dep3": {"C2": {"factors": ["zeta/2.0"], "reactants": [["H", "C", "CH"]]}},
     "two-terms": {"C": {"factors": ["1.5", "-0.25"], "reactants": [["H"], ["C", "C2"]]}},
     "repeated": {"H": {"factors": ["3.0"], "reactants": [["C", "C"]]}},
+    # factors that are sums: the generator must keep them as one parenthesised unit
+    "sum-factor": {"H": {"factors": ["-zeta + Av"], "reactants": [["C"]]}},
+    "diff-factors": {"CH": {"factors": ["Av - 0.5*zeta", "-2.0*Av - zeta/3.0"], "reactants": [["H"], ["C", "C2"]]}},
+    "nodep-sum": {"C2": {"factors": ["-zeta + 2.0*Av"], "reactants": [[]]}},
 }
 
 
